@@ -94,11 +94,12 @@ def _mk_mzm(npol, pol):
         pre = [N >= 1, i >= 0, i < N, Vpi > 0, loss_dB >= 0, ER >= 0]
         sel = 0 if pol == 'x' else 1
         for noise in (False, True):
-            for dkind in ('ndarray', 'esig', 'scalar'):
+            # 'esig-realfield': a field stored as a real array (a CW carrier built from np.ones, LASER without linewidth, real-valued noise)
+            for dkind in ('ndarray', 'esig', 'scalar', 'ndarray-realfield'):
                 def run(ex):
                     mk_gv(ex)
-                    x = mk_osig(ex, 'x', N, npol, noise)
-                    if dkind == 'ndarray':
+                    x = mk_osig(ex, 'x', N, npol, noise, kind='float' if dkind.endswith('realfield') else 'complex')
+                    if dkind.startswith('ndarray'):
                         u = real_arr('u', [N])
                         ex.param_provs[u.prov] = 'drive'
                         uv = lambda j: u.elem((j,))
@@ -191,11 +192,12 @@ def _mk_pm(npol):
         fp = fn(K, 'devices.PM')
         pre = [N >= 1, i >= 0, i < N, Vpi > 0]
         for noise in (False, True):
-            for dkind in ('ndarray', 'esig', 'scalar'):
+            # 'esig-realfield': a field stored as a real array (a CW carrier built from np.ones, LASER without linewidth, real-valued noise)
+            for dkind in ('ndarray', 'esig', 'scalar', 'ndarray-realfield'):
                 def run(ex):
                     mk_gv(ex)
-                    x = mk_osig(ex, 'x', N, npol, noise)
-                    if dkind == 'ndarray':
+                    x = mk_osig(ex, 'x', N, npol, noise, kind='float' if dkind.endswith('realfield') else 'complex')
+                    if dkind.startswith('ndarray'):
                         u = real_arr('u', [N])
                         ex.param_provs[u.prov] = 'drive'
                         uv = lambda j: u.elem((j,))
